@@ -22,7 +22,7 @@ CLASSES = [('header_damage', 1)]
 TIERS = {'quick': {}}
 ALPHABET = [b'a', b'B', b'z', b'0', b'9', b'_', b'-', b'.', b'/', b',',
             b'=', b':', b'#', b'+', b' ', b'\t', b'\xc3\xa9', b'\xff',
-            b', ', b'k=v', b'1']
+            b', ', b'k=v', b'1', b'\r', b'1.0', b'utf-8']
 SWEEP_ALPHABET = [b'a', b'Z', b'0', b'_', b'-', b'.', b'/', b',', b'=', b':',
                   b'#', b'+', b' ', b'\t', b'\xe9', b'9']
 VALID_PIECES = [b'a=b', b'k=1', b'x-y=z_w', b'A0=-5', b'q=/p/q.r', b'k_=.',
@@ -79,11 +79,45 @@ def gen_optstr(rng):
         if rng.chance(0.6):
             s = b' ' + s
 
+    k = rng.below(20)
+
+    if k == 0:
+        # a key that repeats an earlier *value* (of this header or of the
+        # main header): legal as a value, illegal as a key
+        v = rng.choice([b'1', b'1.0', b'007', b'-5', b'/p/q.r', b'.'])
+        s = b' a=' + v + b', ' + v + b'=b'
+    elif k == 1:
+        s = b' ' + rng.choice([b'1.0', b'utf-8'[:0] + b'1.0', b'8']) + b'=x'
+    elif k in (2, 3):
+        # long (valid) option lists: header lengths around the read-ahead
+        # block and its multiples
+        n = rng.choice([70, 80, 83, 84, 85, 86, 87, 90, 170, 180, 181, 182,
+                        183, 190, 280])
+        s = b' pad=' + b'x' * n + (b', k=v' if rng.chance(0.5) else b'')
+    elif k == 4 and s:
+        s = s + b'\r'            # a stray CR at the end of the line
+
     return s
 
 
-def build(ctx, optstr):
-    """(file bytes, index of the damaged section, ids)."""
+def build(ctx, optstr, crlf=False):
+    """(file bytes, index of the damaged section)."""
+    data, idx = build_lf(ctx, optstr)
+
+    if crlf:
+        # every header line ends in CRLF; content keeps its LF
+        out = []
+
+        for line in data.split(b'\n')[:-1]:
+            out.append(line + (b'\r\n' if line.startswith(b'#')
+                               else b'\n'))
+
+        data = b''.join(out)
+
+    return data, idx
+
+
+def build_lf(ctx, optstr):
     H = b'#diffx: encoding=utf-8, version=1.0\n'
     M = b'#...meta: format=json, length=9\n{"k": 1}\n'
 
@@ -102,6 +136,7 @@ def generate(rng, tier, cls):
     return {'actors': [], 'schedule': [], 'faults': [],
             'context': rng.choice(CONTEXTS[:3]),
             'opts_hex': gen_optstr(rng).hex(),
+            'crlf': rng.chance(0.25),
             'block_size': rng.choice([None, None, 1, 5, 97])}
 
 
@@ -171,14 +206,17 @@ def execute(scn, L):
         out.discarded = 'main-context-unused'
         return out
 
-    data, idx = build(ctx, optstr)
-    line = data.split(b'\n')[{'change': 1, 'file': 2, 'change2': 5}[ctx]]
+    crlf = bool(scn.get('crlf'))
+    data, idx = build(ctx, optstr, crlf)
+    line = build_lf(ctx, optstr)[0].split(b'\n')[
+        {'change': 1, 'file': 2, 'change2': 5}[ctx]]
+    # in a CRLF file the line the grammar sees is the text before the CRLF
     parsed = R.parse_header_line(line)
     w = World(scn, L)
     recs, end, exc = read_all(w, data, block_size=scn.get('block_size'),
                               actor='R')
     out.absorb(w)
-    out.case_key = pipe.scn_digest([ctx, optstr.hex()])
+    out.case_key = pipe.scn_digest([ctx, optstr.hex(), crlf])
     out.nontrivial = bool(optstr)
     info = {'line': line, 'context': ctx}
 
@@ -192,6 +230,12 @@ def execute(scn, L):
         return 'ok'
 
     out.probe('grammar_rejects' if parsed is None else 'grammar_accepts')
+
+    if crlf:
+        out.probe('crlf_file')
+
+    if len(line) >= 90:
+        out.probe('long_header')
 
     if parsed is None:
         out.states.add('%s|reject|%s' % (ctx, symclass()))
